@@ -515,6 +515,8 @@ func hwCallee(p *packages.Package, c *ast.CallExpr) string {
 			}
 		}
 		return "." + f.Sel.Name
+	case *ast.IndexExpr:
+		return hwCallee(p, &ast.CallExpr{Fun: f.X})
 	}
 	return "?"
 }
@@ -587,7 +589,8 @@ func (d *hwDesc) localDef(o types.Object) string {
 					}
 					defs = append(defs, fmt.Sprintf("%s%s(%s)#%d", g, hwCallee(d.p, call), strings.Join(args, ","), i))
 				} else {
-					defs = append(defs, g+"?")
+					// `v, ok := x.(T)`, `v, ok := <-ch`, `v, ok := m[k]`
+					defs = append(defs, fmt.Sprintf("%s%s#%d", g, d.desc(v.Rhs[0]), i))
 				}
 			}
 		}
@@ -2134,5 +2137,6 @@ func httpwireExtra(t *tr) string {
 	x.jsonDecodeSites(&out)
 	x.connectShape(&out)
 	x.factories(&out)
+	x.httpwireRound3(&out)
 	return out.String()
 }
